@@ -16,7 +16,14 @@ import (
 type c11Scenario struct {
 	Name    string     `json:"name"`
 	P4      bool       `json:"p4"`
-	Streams [][]string `json:"streams"` // per association: est / mod / del
+	Streams [][]string `json:"streams"` // per association: est / est2 / mod / del
+	// Pre: per association, requests handled one after the other before the concurrent phase (brings the shared pools
+	// into a non-initial state, e.g. exhausted); Pool: UE address pool (default a /29); Alloc: UE addresses are
+	// UP-allocated on BESS too; Extra: explored one deviation deeper than the tier's bound (short streams)
+	Pre   [][]string `json:"pre,omitempty"`
+	Pool  string     `json:"pool,omitempty"`
+	Alloc bool       `json:"alloc,omitempty"`
+	Extra int        `json:"extra,omitempty"`
 }
 
 func c11Scenarios() []c11Scenario {
@@ -25,24 +32,37 @@ func c11Scenarios() []c11Scenario {
 		{Name: "up4-est-mod-del-x2", P4: true, Streams: [][]string{{"est", "mod", "del"}, {"est", "mod", "del"}}},
 		{Name: "up4-est-del-vs-est-mod", P4: true, Streams: [][]string{{"est", "del"}, {"est", "mod"}}},
 		{Name: "bess-est-mod-del-x2", P4: false, Streams: [][]string{{"est", "mod", "del"}, {"est", "mod", "del"}}},
+		// the UE address pool is exhausted when the concurrent phase starts: a deletion races with an establishment that
+		// can only succeed with the address the deletion gives back
+		{Name: "up4-pool-exhausted-del-vs-est", P4: true, Pool: "10.250.0.0/30", Pre: [][]string{{"est"}, {"est"}}, Streams: [][]string{{"del"}, {"est2"}}, Extra: 1},
+		{Name: "bess-pool-exhausted-del-vs-est", P4: false, Alloc: true, Pool: "10.250.0.0/30", Pre: [][]string{{"est"}, {"est"}}, Streams: [][]string{{"del"}, {"est2"}}, Extra: 1},
+		{Name: "up4-pool-exhausted-del-est-vs-est", P4: true, Pool: "10.250.0.0/30", Pre: [][]string{{"est"}, {"est"}}, Streams: [][]string{{"del", "est2"}, {"est2"}}},
 		{Name: "up4-est-del-x3", P4: true, Streams: [][]string{{"est", "del"}, {"est", "del"}, {"est", "del"}}},
 	}
 }
 
 func c11Cfg(sc c11Scenario) vCfg {
-	cfg := vCfg{NConns: len(sc.Streams), P4: sc.P4, UEIPAlloc: true, Pool: "10.250.0.0/29"}
+	pool := "10.250.0.0/29"
+	if sc.Pool != "" {
+		pool = sc.Pool
+	}
+	cfg := vCfg{NConns: len(sc.Streams), P4: sc.P4, UEIPAlloc: true, Pool: pool}
 	if sc.P4 {
-		cfg.P4Conf = &vP4Cfg{DefaultTC: 3, UEPool: "10.250.0.0/29", CounterSize: 16}
+		cfg.P4Conf = &vP4Cfg{DefaultTC: 3, UEPool: pool, CounterSize: 16}
 	}
 	return cfg
 }
 
 // c11Request builds request k of association a. Sessions of different associations share the gNB and the application
 // filter; UE addresses and TEIDs are the agent's to choose (CHOOSE F-TEID, UE IP allocation from a small pool).
-func c11Request(in *vInst, a int, kind string, upseid uint64) []byte {
+func c11Request(in *vInst, sc c11Scenario, a int, kind string, upseid uint64) []byte {
 	c := in.conns[a]
 	switch kind {
-	case "est":
+	case "est", "est2":
+		cpseid := uint64(0xA0 + a)
+		if kind == "est2" {
+			cpseid = uint64(0xB0 + a)
+		}
 		p, f, q := up4RuleSet("", 0, c04Peers[0], c04SDFs[0], 1, 0)
 		for i := range p {
 			if p[i].Src == ie.SrcInterfaceAccess {
@@ -51,7 +71,7 @@ func c11Request(in *vInst, a int, kind string, upseid uint64) []byte {
 				p[i].UEIP, p[i].UEAlloc = "", true
 			}
 		}
-		if !in.cfg.P4 {
+		if !in.cfg.P4 && !sc.Alloc {
 			// BESS: uplink rules need the UE address themselves; give CP-chosen distinct ones
 			ue := fmt.Sprintf("16.0.%d.1", a)
 			for i := range p {
@@ -61,13 +81,35 @@ func c11Request(in *vInst, a int, kind string, upseid uint64) []byte {
 				}
 			}
 		}
-		return (&sReq{Kind: kEst, Conn: a, CPSEID: uint64(0xA0 + a), Seq: 10, CreatePDR: p, CreateFAR: f, CreateQER: q}).build(c).marshal()
+		return (&sReq{Kind: kEst, Conn: a, CPSEID: cpseid, Seq: 10, CreatePDR: p, CreateFAR: f, CreateQER: q}).build(c).marshal()
 	case "mod":
 		return (&sReq{Kind: kMod, Conn: a, SEID: upseid, Seq: 11, UpdateFAR: []sFAR{{ID: 2, Action: ActionForward, HasFwd: true, HasDst: true, Dst: ie.DstInterfaceAccess, OHCIP: c04Peers[1], OHCTEID: uint32(0x7000 + a)}}}).build(c).marshal()
 	case "del":
 		return (&sReq{Kind: kDel, Conn: a, SEID: upseid, Seq: 12}).build(c).marshal()
 	}
 	panic("unknown request kind")
+}
+
+// c11Prologue handles the Pre requests one after the other (association 0 first) and returns the UP F-SEID each
+// association's later requests address. handle delivers one datagram and returns what was written back.
+func c11Prologue(in *vInst, sc c11Scenario, handle func(a int, b []byte) [][]byte) []uint64 {
+	ups := make([]uint64, len(sc.Streams))
+	for a := range sc.Pre {
+		for _, kind := range sc.Pre[a] {
+			resp := handle(a, c11Request(in, sc, a, kind, ups[a]))
+			if len(resp) != 1 {
+				panic("VERIF-INFRA: C11 prologue: no single response to " + kind)
+			}
+			d, err := vDecode(resp[0])
+			if err != nil || d.Cause != ie.CauseRequestAccepted {
+				panic(fmt.Sprintf("VERIF-INFRA: C11 prologue: %s not accepted (%v, cause %d)", kind, err, d.Cause))
+			}
+			if d.HasFSEID {
+				ups[a] = d.UPSEID
+			}
+		}
+	}
+	return ups
 }
 
 type c11Result struct {
@@ -81,13 +123,16 @@ func (r c11Result) key() string {
 }
 
 // c11Stream runs the request stream of association a (called from a thread of its own).
-func c11Stream(in *vInst, sc c11Scenario, a int, out *c11Result) {
+func c11Stream(in *vInst, sc c11Scenario, a int, out *c11Result, ups []uint64) {
 	var upseid uint64
+	if a < len(ups) {
+		upseid = ups[a]
+	}
 	var causes []string
 	for _, kind := range sc.Streams[a] {
 		c := in.conns[a]
 		c.sock.take()
-		fr, msg := vCatch(func() { c.pc.HandlePFCPMsg(c11Request(in, a, kind, upseid)) })
+		fr, msg := vCatch(func() { c.pc.HandlePFCPMsg(c11Request(in, sc, a, kind, upseid)) })
 		if fr != "" {
 			out.Panic = fr + ": " + msg
 			causes = append(causes, kind+"=panic")
@@ -202,13 +247,13 @@ func c11Serial(sc c11Scenario) map[string]string {
 			in.inject(i, (&sReq{Kind: kAssoc, Conn: i, Seq: 1}).build(in.conns[i]).marshal())
 		}
 		res := c11Result{Causes: make([]string, n)}
-		ups := make([]uint64, n)
+		ups := c11Prologue(in, sc, func(a int, b []byte) [][]byte { r, _, _ := in.inject(a, b); return r })
 		step := make([]int, n)
 		causes := make([][]string, n)
 		for _, a := range order {
 			kind := sc.Streams[a][step[a]]
 			step[a]++
-			resp, fr, _ := in.inject(a, c11Request(in, a, kind, ups[a]))
+			resp, fr, _ := in.inject(a, c11Request(in, sc, a, kind, ups[a]))
 			if fr != "" || len(resp) != 1 {
 				causes[a] = append(causes[a], kind+"=?")
 				continue
